@@ -110,9 +110,7 @@ func (s *Service) ScheduleJob(ctx context.Context,
 		case <-ctx.Done():
 			verifPoint(job, "GSelCtx")
 			s.log.Trace().Str("job", name).Time("scheduled", runtime).Msg("Parent context done; job not running")
-			s.jobsMutex.Lock()
-			delete(s.jobs, name)
-			s.jobsMutex.Unlock()
+			s.removeJob(name, job)
 			verifPoint(job, "GCtxDeleted")
 			finaliseJob(job)
 			verifPoint(job, "GKFinalised")
@@ -157,9 +155,7 @@ func (s *Service) ScheduleJob(ctx context.Context,
 				break
 			}
 			verifPoint(job, "GTInactive")
-			s.jobsMutex.Lock()
-			delete(s.jobs, name)
-			s.jobsMutex.Unlock()
+			s.removeJob(name, job)
 			verifPoint(job, "GTDeleted")
 			s.log.Trace().Str("job", name).Time("scheduled", runtime).Msg("Timer triggered; job running")
 			job.active.Store(true)
@@ -220,9 +216,7 @@ func (s *Service) SchedulePeriodicJob(ctx context.Context,
 			runtime, err := runtimeFunc(ctx)
 			if errors.Is(err, scheduler.ErrNoMoreInstances) {
 				s.log.Trace().Str("job", name).Msg("No more instances; period job stopping")
-				s.jobsMutex.Lock()
-				delete(s.jobs, name)
-				s.jobsMutex.Unlock()
+				s.removeJob(name, job)
 				verifPoint(job, "GNoMoreDeleted")
 				finaliseJob(job)
 				verifPoint(job, "GKFinalised")
@@ -231,9 +225,7 @@ func (s *Service) SchedulePeriodicJob(ctx context.Context,
 			}
 			if err != nil {
 				s.log.Error().Str("job", name).Err(err).Msg("Failed to obtain runtime; periodic job stopping")
-				s.jobsMutex.Lock()
-				delete(s.jobs, name)
-				s.jobsMutex.Unlock()
+				s.removeJob(name, job)
 				verifPoint(job, "GNoMoreDeleted")
 				finaliseJob(job)
 				verifPoint(job, "GKFinalised")
@@ -245,9 +237,7 @@ func (s *Service) SchedulePeriodicJob(ctx context.Context,
 			case <-ctx.Done():
 				verifPoint(job, "GSelCtx")
 				s.log.Trace().Str("job", name).Time("scheduled", runtime).Msg("Parent context done; job not running")
-				s.jobsMutex.Lock()
-				delete(s.jobs, name)
-				s.jobsMutex.Unlock()
+				s.removeJob(name, job)
 				verifPoint(job, "GCtxDeleted")
 				finaliseJob(job)
 				verifPoint(job, "GKFinalised")
@@ -399,6 +389,17 @@ func (s *Service) CancelJobs(ctx context.Context, prefix string) {
 		// It is possible that the job has been removed whist we were iterating, so use the non-erroring version of cancel.
 		s.CancelJobIfExists(ctx, name)
 	}
+}
+
+// removeJob removes a job from the jobs list.
+// The name may have been re-used for a new job since this job was taken off the list
+// by RunJob() or CancelJob(), so only remove the entry if it is still ours.
+func (s *Service) removeJob(name string, job *job) {
+	s.jobsMutex.Lock()
+	if s.jobs[name] == job {
+		delete(s.jobs, name)
+	}
+	s.jobsMutex.Unlock()
 }
 
 // finaliseJob tidies up a job that is no longer in use.
